@@ -1,6 +1,6 @@
 (* FrameProofs.v -- round trip and classification of unpack. *)
 From Coq Require Import List ZArith Bool String Ascii Lia.
-From OV.Model Require Import Json Schema Frame.
+From OV.Model Require Import Json JsonText Schema Frame.
 Import ListNotations.
 
 Lemma py_eq_int_self z : py_eq_int (JNum (NInt z)) z = true.
@@ -73,3 +73,15 @@ Proof.
     - exists t, [a1; a2; a3; a4], 4%Z. rewrite E2, E3, E4. repeat split. }
   exists t, args. rewrite E2, E3, E4. split; reflexivity.
 Qed.
+
+(* the text written for a message is the compact array of the texts of its parts *)
+Theorem pack_text m :
+  print_compact (pack_v m) =
+  match m with
+  | Call i a p => ("[" ++ join "," ["2"; print_compact i; print_compact a; print_compact p] ++ "]")%string
+  | CallResult i p _ => ("[" ++ join "," ["3"; print_compact i; print_compact p] ++ "]")%string
+  | CallError i c d x =>
+      ("[" ++ join "," ["4"; print_compact i; print_compact c; print_compact d;
+                        print_compact (match x with Some v => v | None => JNull end)] ++ "]")%string
+  end.
+Proof. destruct m as [i a p|i p a|i c d x]; reflexivity. Qed.
